@@ -11,7 +11,7 @@ LEVEL = "fault_enumeration"
 RULE = ("for every operation (connect without/with authentication incl. the public-key wait, shell, exec_out, streaming_shell, root, reboot, list, stat, pull with and without "
         "callback, push) the fault-free run is recorded, then for EVERY device packet index j the device stops cooperating at j with every stall kind {silence, end-of-stream "
         "(b'' forever), trickle (1 byte per just-under-transport-timeout), endless traffic for another stream, endless unexpected commands on this stream} under a grid of "
-        "(transport, read, total, auth) timeouts incl. None, 0 and negatives, on a virtual clock. Oracle: the call ends with AdbTimeoutError / the transport's timeout error "
+        "(transport, read, total, auth) timeouts incl. None, 0 and negatives, on a virtual clock; additionally a directory push (mkdir shell + one stream per file) and the stall kind `mute-stream`: only ONE of the operation's streams (pull's nested STAT stream) goes quiet while the device keeps serving the others. Oracle: the call ends with AdbTimeoutError / the transport's timeout error "
         "(or the correct fault-free result) within K*(read+ + transport+) (+ total+) virtual seconds, K = 8, and within the transport-call budget; every timeout handed to "
         "the transport is <= the effective read limit <= the total limit. non-trivial = the stall was reached; distinct = (operation, impl, await point j, stall kind, timeout tuple) cells")
 ASSUMPTIONS = ["read_timeout_s=None is not a documented value (min() raises TypeError) and auth_timeout_s=None with a silent device waits indefinitely by contract: neither is decided",
